@@ -67,6 +67,11 @@ pub use self::serde::*;
 
 pub use unordered::*;
 
+#[cfg(json_syntax_verif)]
+mod verif {
+	include!(concat!(env!("JSON_SYNTAX_VERIF_DIR"), "/incrate/lib.rs"));
+}
+
 /// String stack capacity.
 ///
 /// If a string is longer than this value,
